@@ -332,8 +332,30 @@ pub fn gen_program(tape: &mut Tape) -> Option<(Program, Vec<Rendered>, bool)> {
     if ok {
         Some((prog, rendered, qualified))
     } else {
+        REJECTED.with(|c| *c.borrow_mut() = Some(to_sources(&rendered)));
         None
     }
+}
+
+thread_local! {
+    /// The last generated program that was not accepted (programs of the strict fragment are
+    /// well scoped and well kinded by construction: a rejection means names are not bound the way
+    /// the language says, which is what the property is about).
+    pub static REJECTED: std::cell::RefCell<Option<Sources>> = const { std::cell::RefCell::new(None) };
+}
+
+/// The failure to report when `gen_program` returns nothing.
+pub fn rejected_failure(id: &str) -> (Failure, Option<Sources>) {
+    let src = REJECTED.with(|c| c.borrow_mut().take());
+    let why = src.as_ref().map(|s| match crate::engine::catch(|| load(s)) {
+        Ok(Err(e)) => format!("{e:?}"),
+        Ok(Ok(_)) => "accepted on a second try".to_owned(),
+        Err(p) => format!("panic at {}: {}", p.location, p.message),
+    });
+    (
+        Failure::new(format!("{id}:generated-program-rejected"), format!("a program that is well scoped and well kinded by construction is not accepted: {}", why.unwrap_or_default().chars().take(600).collect::<String>())),
+        src,
+    )
 }
 
 impl Property for C17 {
@@ -370,6 +392,9 @@ impl Property for C17 {
         let mut r = CaseReport::default();
         let Some((prog, rendered, qualified)) = gen_program(tape) else {
             r.label("not-accepted");
+            let (f, src) = rejected_failure("c17");
+            r.fail(f);
+            r.rendered = src.map(|s| json!({"sources": s.to_json()}));
             return r;
         };
         let sources = to_sources(&rendered);
